@@ -16,6 +16,10 @@ Monitors on every own page found in the bytes sent to the client (independent RF
   page.framed        HTTP/1: the client stream parses completely; the page is framed by Content-Length == body length
                      (head only in answer to HEAD), it is the last message and the connection is closed after it
                      HTTP/2: the h2 library accepts the frames, the stream is ended, DATA == body
+  page.position      (part of page.framed) what precedes an own page in the client stream is a sequence of COMPLETE responses that leaves
+                     a request unanswered: never a page inside a response still in flight, never a second final response.  Source
+                     'req-body-bad-during-response': streamed chunked request + early-answering origin (partial streamed 200 /
+                     complete early 413/200 already relayed) + malformed chunk size line / data overrun / trailer afterwards
   page.other_html    any other mitmproxy-generated message (no x-tag) that declares or looks like HTML obeys the same escaping
 """
 import html
@@ -30,9 +34,9 @@ from vf.ref import http1 as ref
 PROPERTY = "C12"
 LEVEL = "exploration"
 ENGINE = "sansio"
-BUDGET = {"quick": (2500, 18), "thorough": (40000, 200)}
+BUDGET = {"quick": (2000, 18), "thorough": (40000, 200)}
 WORKERS = {"quick": 4, "thorough": 16}
-REQUIRED = ["page.escaped", "page.content_type", "page.framed", "pages.h1", "pages.h2", "pages.head_only", "pages.reflecting", "pages.reflecting.h2", "down.parse", "down.parse.h2"]
+REQUIRED = ["page.escaped", "page.content_type", "page.framed", "pages.h1", "pages.h2", "pages.head_only", "pages.reflecting", "pages.reflecting.h2", "down.parse", "down.parse.h2", "page.position"]
 TECHNIQUE = "runtime monitoring: sans-io exploration of every error source with markup markers; wire bytes re-read by an independent parser, page body matched against the escaped-template language"
 RULE = (
     "case = (mode, client protocol, error source, marker kind and position, optional preceding keep-alive request, method incl. HEAD, "
@@ -55,7 +59,7 @@ TAG = re.compile(rb"t\d+-[0-9a-f]{6}")
 PAGE = re.compile(rb"^<html>\s*<head>\s*<title>(\d{3}) ([^<>&]*)</title>\s*</head>\s*<body>\s*<h1>(\d{3}) ([^<>&]*)</h1>\s*<p>(.*)</p>\s*</body>\s*</html>$", re.S)
 ENTITY = re.compile(rb"&(?:amp|lt|gt|quot|#x27);")
 URI_CHARS = re.compile(rb"^[A-Za-z0-9\-._~:/?#\[\]@!$&'()*+,;=%]+$")
-OPT_KEYS = ("body_size_limit", "connection_strategy", "validate_inbound_headers")
+OPT_KEYS = ("body_size_limit", "connection_strategy", "validate_inbound_headers", "stream_large_bodies")
 
 
 def classify(kind, info):
@@ -125,6 +129,12 @@ class ViaAddon:
     def requestheaders(self, f):
         if self.case["via"]:
             f.server_conn.via = ("http", ("proxy.example", 3128))
+        if self.case.get("stream_addon"):
+            f.request.stream = True
+
+    def responseheaders(self, f):
+        if self.case.get("stream_addon") and f.response is not None:
+            f.response.stream = True
 
 
 def run_h1(ctx, opts, case):
@@ -153,7 +163,17 @@ def run_h1(ctx, opts, case):
     if mode == "transparent":
         d.context.server.address = ("example.com", 80)
     stream = b"".join(q["raw"] for q in reqs)
-    d.attach_client_peer(sansio.ScriptPeer(peers.cut(stream, r, case["client_seg"])))
+    hold = case.get("hold_after")
+    if hold is None:
+        csegs = peers.cut(stream, r, case["client_seg"])
+    else:
+        # the rest of the upload waits until the origin's early answer has been relayed to the client and the proxy is quiescent
+        def gate(drv):
+            return trigger["tag"] in bytes(drv.out[drv.client]) and not drv.pending and not any(q for c, q in drv.inbox.items() if c is not drv.client)
+
+        tail = peers.cut(stream[hold:], r, case["client_seg"])
+        csegs = peers.cut(stream[:hold], r, case["client_seg"]) + [(tail[0], gate)] + tail[1:]
+    d.attach_client_peer(sansio.ScriptPeer(csegs))
     d.start()
     d.run()
     closed_by_proxy = d.peers[d.client].got_eof
@@ -187,10 +207,16 @@ def run_h1(ctx, opts, case):
             if pre:
                 j = len(reqs) - 1
                 stp, pmsgs, prest = ref.parse_responses(pre, methods, eof=False)
+                ctx.count("page.position")
                 if stp == "ok" and not prest:
-                    j = min(sum(1 for m_ in pmsgs if not 100 <= m_["status"] < 200), len(reqs) - 1)
+                    finals = sum(1 for m_ in pmsgs if not 100 <= m_["status"] < 200)
+                    if finals >= len(reqs):
+                        ctx.violation("page.framed", wit(problem="unsolicited own page: every request on this connection already has its final response", finals_before_page=finals, requests=len(reqs)))
+                    j = min(finals, len(reqs) - 1)
+                elif stp == "incomplete":
+                    ctx.violation("page.framed", wit(problem="own page written into the client stream while another response is still incomplete (its bytes become part of that response)", preceding=pre[-300:]))
                 else:
-                    ctx.count("preceding_relayed_bytes_unparsed")
+                    ctx.count("preceding_relayed_bytes_unparsed")  # reference REJECTS what precedes: relayed origin junk (validation off)
             down_seg, methods = down[start:], methods[j:]
         else:
             down_seg = down
@@ -299,7 +325,14 @@ def make_origin(case, r, trigger_tag):
                 return
             peers.H1ServerPeer.on_data(self_, data)
 
-    return lambda drv, conn: RawPeer(responder, r, case["server_seg"])
+    early_ok = None
+    if case["server"] and case["server"].get("early"):
+        # early-answering origin: answers the trigger as soon as it holds its HEAD, while the streamed body is still uploading
+        def early_ok(k, hm):
+            m = TAG.search(hm["target"])
+            return bool(m) and m.group(0) == trigger_tag
+
+    return lambda drv, conn: RawPeer(responder, r, case["server_seg"], early_ok=early_ok)
 
 
 def run_h2(ctx, opts, case):
